@@ -243,6 +243,11 @@ theorem step_inv (ff : Bool) (st st' : St) (e : Ev) (hi : Inv st) (hs : evSafe s
       · simp only [hc]; exact hr
     · cases h
   | skip en => simp [evSafe] at hs
+  | fail en =>
+    simp only [step] at h
+    split at h
+    · injection h with h; subst h; exact ⟨hba, hrows⟩
+    · cases h
   | delete f =>
     simp only [step] at h
     split at h
